@@ -275,7 +275,7 @@ func init() {
 		Rule: "each case is one access path (1-6 steps: .Field, [\"Field\"], [i] with literal / Go-int / narrow-int variable, [k] with key literal or key-typed variable, [i:j] with omitted bounds, method calls with arguments) into a graph of structs (exported/unexported fields, embedding by value 4 levels deep and by pointer, shadowing declared before/after the embedded struct), " +
 			"maps keyed by string/int/named string, typed and interface slices (incl. len<cap), arrays, strings, multi-level nil and non-nil pointers and interfaces; the root is a *Root, a Root value, the context '.', a struct type minted at run time with reflect.StructOf (fresh struct-field cache) or an interface-typed container; " +
 			"half of the paths get one step corrupted (missing/unexported field, missing method, index -1/len/far, key or index of the wrong kind, absent key, slice bound past len or inverted, access on nil or on a scalar) at a random depth; " +
-			"oracle: value -> the rendered scalar equals the stored leaf token; nil -> no error and empty/<nil> output; error -> Execute returns an error and does not panic; non-trivial = path length >=2 or failing step; distinct by (root kind, step kinds, corruption, outcome)",
+			"oracle: value -> the rendered scalar equals the stored leaf token; nil -> no error and empty/<nil> output; error -> Execute returns an error and does not panic; non-trivial = path length >=2 or failing step; distinct by (root kind, step kinds, corruption, outcome) Since wave 9: method steps are spelt a[\"Method\"](args) a quarter of the time; the data holds a struct with non-ASCII exported field names (one of them promoted through an embedded pointer).",
 		Assumptions: []string{"reflect.FieldByName, MapIndex, method sets and bounds define 'the value stored in the data'", "shapes the statement leaves open (method value without call, absent key through dot access, non-integral index, slicing arrays, string-variable index on structs) are discarded and counted"},
 		NCases:      c06n,
 		RunCase:     c06run,
